@@ -396,6 +396,47 @@ impl Error for ChainError {
     }
 }
 
+/// The same chains with every source stored INLINE, as the first field of its wrapper (`repr(C)`): the
+/// wrapper and its source then have the same address, as newtype-style error wrappers do.
+#[repr(C)]
+struct InlineError<E> {
+    source: E,
+    msg: String,
+}
+impl<E> fmt::Display for InlineError<E> {
+    fn fmt(&self, f: &mut fmt::Formatter<'_>) -> fmt::Result {
+        f.write_str(&self.msg)
+    }
+}
+impl<E> fmt::Debug for InlineError<E> {
+    fn fmt(&self, f: &mut fmt::Formatter<'_>) -> fmt::Result {
+        write!(f, "InlineError<{}>", self.msg)
+    }
+}
+impl<E: Error + 'static> Error for InlineError<E> {
+    fn source(&self) -> Option<&(dyn Error + 'static)> {
+        Some(&self.source)
+    }
+}
+fn inline_error(msg: &str, chain: &[String]) -> Option<Box<dyn Error + 'static>> {
+    let leaf = |m: &str| ChainError { msg: m.to_owned(), source: None };
+    let wrap = |m: &str| m.to_owned();
+    Some(match chain {
+        [] => return None,
+        [a] => Box::new(InlineError { source: leaf(a), msg: wrap(msg) }),
+        [a, b] => Box::new(InlineError { source: InlineError { source: leaf(b), msg: wrap(a) }, msg: wrap(msg) }),
+        [a, b, c] => Box::new(InlineError {
+            source: InlineError { source: InlineError { source: leaf(c), msg: wrap(b) }, msg: wrap(a) },
+            msg: wrap(msg),
+        }),
+        [a, b, c, d] => Box::new(InlineError {
+            source: InlineError { source: InlineError { source: InlineError { source: leaf(d), msg: wrap(c) }, msg: wrap(b) }, msg: wrap(a) },
+            msg: wrap(msg),
+        }),
+        _ => return None,
+    })
+}
+
 /// A real Rust value of the type a `Prim` stands for.
 enum Held {
     I8(i8),
@@ -447,7 +488,15 @@ fn hold(p: &Prim) -> Held {
         Prim::Str { s, owned: true } => Held::StrOwned(s.clone()),
         Prim::Display(o) => Held::Display(tracing::field::display(o.clone())),
         Prim::Debug(o) => Held::Debug(tracing::field::debug(o.clone())),
-        Prim::Error(m, chain) => Held::Error(Box::new(ChainError::new(m, chain))),
+        // chains of 1..=4 sources are built with inline sources when the messages' total length is odd
+        // (a deterministic choice that the model does not see), with boxed sources otherwise
+        Prim::Error(m, chain) => {
+            let odd = (m.len() + chain.iter().map(String::len).sum::<usize>()) % 2 == 1;
+            match (odd, inline_error(m, chain)) {
+                (true, Some(e)) => Held::Error(e),
+                _ => Held::Error(Box::new(ChainError::new(m, chain))),
+            }
+        }
     }
 }
 
